@@ -403,7 +403,7 @@ def run(chk, replay=None):
 
     # ---- 4. classification of broken obligations / correspondence with no counterexample
     chk.coverage['correspondence']['samples_of_disagreement'] = disagreements[:5]
-    if broken and counterexamples == 0 and not chk.known_seen:
+    if broken and counterexamples == 0:
         for b in broken[:20]:
             chk.unexplained('broken-obligation', b, chk.coverage.get('build_log_tail', '')[-600:])
     elif broken:
